@@ -26,6 +26,10 @@ func init() {
 						// patterns at the root and relative to the working directory
 						cs = append(cs, mkCase("", "c14", "HGlob", cfg, kind, n, 1), mkCase("", "c14", "HGlob", cfg, kind, n, 2))
 					}
+					if kind == 0 && n >= 2 && n <= 3 {
+						// a non-administrator and a directory that can be searched but not listed
+						cs = append(cs, mkCase("", "c14", "HGlob", cfg, kind, n, 3))
+					}
 					if n <= 2 {
 						cs = append(cs, mkCase("", "c14", "HHelpers", cfg, kind, n))
 					}
@@ -39,7 +43,7 @@ func init() {
 		Reach:       []string{"glob", "walk", "helpers"},
 		Explanation: "Bounded symbolic execution of avfs.Glob (glob, hasMeta, cleanGlobPath), avfs.WalkDir/walkDir, avfs.ReadDir and the helpers Exists/DirExists/IsDir/IsEmpty over MemFS, OrefaFS, RoFS and FailFS on a seed tree (two directories, three files, one symbolic link where supported). Glob: the pattern is \"/w/\" followed by n fully symbolic bytes (all values but NUL: names, '*', '?', classes, escapes, separators); the result must equal Go 1.23's own Glob algorithm executed in the same run over the same file system through Lstat/Stat/ReadDir (sorted, nil when empty, ErrBadPattern exactly for malformed patterns). WalkDir: the callback's answer at each of the first k visits is a symbolic choice among nil, SkipDir, SkipAll and an error; the visit sequence and the returned error must equal Go's WalkDir algorithm. Natively the reference algorithms are compared with filepath.Glob / filepath.WalkDir on an identical tree on tmpfs for every witness (ORACLE mismatch = exit 3).",
 		Bounds: func(tier string) map[string]any {
-			return map[string]any{"glob_symbolic_pattern_bytes": map[string]string{"quick": "3 (wrappers 2; root-level and relative patterns 2, MemFS 3)", "thorough": "4 on MemFS, 3 on OrefaFS, 2 through wrappers"}[tier], "walk_symbolic_decisions": map[string]int{"quick": 3, "thorough": 4}[tier], "tree": "2 directories, 3 files, 1 symlink", "outside": "longer patterns, relative patterns, larger trees, unreadable directories (permission errors), BasePathFS.Glob (C10)"}
+			return map[string]any{"glob_symbolic_pattern_bytes": map[string]string{"quick": "3 (wrappers 2; root-level and relative patterns 2, MemFS 3)", "thorough": "4 on MemFS, 3 on OrefaFS, 2 through wrappers"}[tier], "walk_symbolic_decisions": map[string]int{"quick": 3, "thorough": 4}[tier], "tree": "2 directories, 3 files, 1 symlink", "unreadable_directory": "MemFS only: acting user 1000, /w/ab mode 0311 (searchable, not listable), 2..3 pattern bytes below /w; the kernel witness runs under setfsuid", "outside": "longer patterns, larger trees, unreadable directories for WalkDir, BasePathFS.Glob (C10)"}
 		},
 		Trusted: []string{"the ports of Go 1.23's Glob and WalkDir algorithms in /verif/harness/sysx/refwalk.go, compared natively with filepath.Glob/WalkDir"},
 	})
